@@ -13,6 +13,7 @@ import ast
 import z3
 
 _DT_CACHE = {}
+STRLIKE = set()   # names of opaque sorts that stand for python strings used only as keys: str(x) is x, isinstance(x, str)
 
 
 class T:
